@@ -256,7 +256,8 @@ def cases(quick):
     for n in (2, 3):
         nm = names(n)
         for back, front in itertools.permutations(nm, 2):
-            for extra in [None] + [(a, c) for a, c in itertools.permutations(nm, 2) if (a, c) != (front, back) and (a, c) != (back, front)]:
+            # (the same edge may also be declared from the other end: front depends on back)
+            for extra in [None] + [(a, c) for a, c in itertools.permutations(nm, 2) if (a, c) != (back, front)]:
                 g = {m: [] for m in nm}
                 g[back].append('^' + front)
                 if extra:
